@@ -153,7 +153,13 @@ def declarations():
 
 
 def units():
-    out = ["int (g) = 1;", "int (*p) = 0;", "int ((a)) = 2, b = 3;", "char (s[4]) = \"abc\";", "void f(void) { int (x) = 1; }"]
+    out = ["int __attribute__((unused)) v;", "int * __attribute__((unused)) v;", "int (__attribute__((unused)) v);", "int (__attribute__((unused)) *v)(void);",
+           "int __attribute__((noinline)) f(void);", "int * __attribute__((noinline)) f(void);", "int (__attribute__((noinline)) f)(void);", "__attribute__((noinline)) int f(void);",
+           "int __attribute__((noinline)) f(void) { return 0; }", "int * __attribute__((noinline)) f(void) { return 0; }", "__attribute__((noinline)) int f(void) { return 0; }",
+           "void f(int __attribute__((unused)) a);", "void f(int * __attribute__((unused)) a, int (__attribute__((unused)) b));", "struct S { int __attribute__((packed)) a; int * __attribute__((unused)) b; };",
+           "int v __attribute__((unused)), * __attribute__((unused)) w;", "int f(void) __attribute__((noreturn)), g(void);", "__extension__ __attribute__((unused)) int v;", "int a, __attribute__((unused)) b, * __attribute__((unused)) c;", "void f(int (__attribute__((unused)) *)(void));",
+           "void f(int (* __attribute__((unused)) cb)(void), int __attribute__((unused)) [2]);",
+           "int (g) = 1;", "int (*p) = 0;", "int ((a)) = 2, b = 3;", "char (s[4]) = \"abc\";", "void f(void) { int (x) = 1; }"]
     for s in statements():
         out.append("void f(void) { %s }" % s)
     for e in expressions():
